@@ -339,15 +339,22 @@ fn replay_main(harness: &str, path: &Path, cases: &[Case]) -> i32 {
             }
         }
     }
-    let digest = {
+    // The digest that two replays must agree on covers WHO did WHAT in which order (thread and
+    // operation of every step) and the observable outcome, not the raw values moved by the atomic
+    // operations: port-level harnesses store process ids and unique ids in atomics, which differ
+    // between the replay processes although the execution is the same. The values are digested
+    // separately for information.
+    let (digest, value_digest) = {
         let mut h: u64 = 0;
+        let mut hv: u64 = 0;
         for t in &r.trace {
-            h = h.wrapping_mul(0x100000001b3) ^ (t.thread as u64) ^ (t.old << 8) ^ (t.new << 24);
-            for b in t.op.bytes() {
+            h = h.wrapping_mul(0x100000001b3) ^ (t.thread as u64);
+            hv = hv.wrapping_mul(0x100000001b3) ^ (t.old << 8) ^ (t.new << 24);
+            for b in t.op.bytes().chain(t.loc.bytes()) {
                 h = h.wrapping_mul(0x100000001b3) ^ b as u64;
             }
         }
-        h
+        (h, hv)
     };
     let code = match &r.failure {
         Some(f) => {
@@ -360,6 +367,7 @@ fn replay_main(harness: &str, path: &Path, cases: &[Case]) -> i32 {
         }
     };
     println!("REPLAY-DIGEST: {digest:016x} outcome={:016x}", r.outcome);
+    println!("REPLAY-VALUES: {value_digest:016x}");
     if r.fatal {
         unsafe { libc::_exit(code) }
     }
